@@ -518,9 +518,15 @@ structure RawLattice where
   ju : JU
   omin : Val
   omax : Val
+/-- `isinstance(ju, tuple) and len(ju) == 2 and isinstance(ju[1], str)` → `[ju]` -/
+def wrapJU : JU → JU
+  | .single dims (.str t e) => .list [(dims, .str t e)]
+  | j => j
+/-- `LatticeConstraints.__init__` (fix: a single constraint tuple is wrapped like in `Lattice.__init__`) -/
 def latticeConstraints (r : RawLattice) : Except Err LatCfg :=
-  verifyLattice { sizes := r.sizes, mono := r.mono, uni := r.uni, ew := r.ew, tp := r.tp, md := r.md,
-                  rd := r.rd, jm := r.jm, ju := r.ju, omin := r.omin, omax := r.omax }
+  verifyLattice { sizes := r.sizes, mono := r.mono, uni := r.uni, ew := wrapSingle r.ew, tp := wrapSingle r.tp,
+                  md := wrapSingle r.md, rd := wrapSingle r.rd, jm := wrapSingle r.jm, ju := wrapJU r.ju,
+                  omin := r.omin, omax := r.omax }
 
 /-- `LinearInitializer.__init__` -/
 structure RawLatInit where
@@ -562,10 +568,6 @@ def torsionRegularizer (r : RawLatReg) : Except Err Unit := laplacianRegularizer
    unimodal dimensions (an `IndexError` for a dimension `≥ rank` — what step 3 now excludes), then the
    named initializer is constructed (and verifies its own arguments). -/
 
-/-- `isinstance(ju, tuple) and len(ju) == 2 and isinstance(ju[1], str)` → `[ju]` -/
-def wrapJU : JU → JU
-  | .single dims (.str t e) => .list [(dims, .str t e)]
-  | j => j
 
 /-- `all_unimodalities[dim] = direction` on a Python list of length `n`: negative indices count
 from the end, anything outside `[-n, n)` is an `IndexError` -/
